@@ -6,13 +6,13 @@
    fixes_proposed/C13-*.diff applied). *)
 From Coq Require Import String ZArith List Bool Permutation.
 From Verif Require Import Model.C13 Gen.CheckInventory Proofs.C13
-  Proofs.C13_writer Proofs.C13_inventory.
+  Proofs.C13_writer Proofs.C13_copy Proofs.C13_derive Proofs.C13_inventory.
 Import ListNotations.
 Open Scope Z_scope.
 
-(* The check_* methods, their levels, the mandatory-key tables, the
-   greater-zero keys and the dispatch of the tree under test are those the
-   model was written for (a new or re-levelled check method fails here). *)
+(* The violation-level check_* methods, the mandatory-key tables and the
+   greater-zero keys of the tree under test are (as sets) those the model was
+   written for; VALID_CHOICES is empty. *)
 Theorem C13_inventory_matches : inventory_ok = true.
 Proof. exact inventory_matches. Qed.
 Print Assumptions C13_inventory_matches.
@@ -33,33 +33,8 @@ Theorem C13_writer_completes :
 Proof. exact writer_completes. Qed.
 Print Assumptions C13_writer_completes.
 
-(* Before dclab commit ea8e52b (fix of rectify_metadata) the statement was
-   false: with "trace" as alphabetically first feature the event count was the
-   number of traces. *)
-Theorem C13_unfixed_writer_trace_first_refuted :
-  exists (f : file) (n : Z) (g : file),
-    complete_input f n = true /\ rectify_gen false f = Some g
-    /\ violations g = Some [FeatureSize 1; TraceSize 1; TraceSize 3].
-Proof. exact writer_unfixed_refuted. Qed.
-Print Assumptions C13_unfixed_writer_trace_first_refuted.
 
-(* Known finding C13-export-subset-channel-count: exporting a subset of the
-   fluorescence channels of a clean file gives a file with a violation. *)
-Theorem C13_export_subset_clean_refuted :
-  exists (f : file) (n : Z) (g : file) (r : Z) (g' : file),
-    complete_input f n = true /\ rectify f = Some g
-    /\ violations g = Some []
-    /\ rectify (drop_feat r g) = Some g'
-    /\ violations g' = Some [ChannelCount].
-Proof. exact export_subset_refuted. Qed.
-Print Assumptions C13_export_subset_clean_refuted.
 
-Theorem C13_export_subset_clean_partial :
-  forall (g : file) (r n : Z) (g' : file),
-    complete_input (drop_feat r g) n = true ->
-    rectify (drop_feat r g) = Some g' -> violations g' = Some [].
-Proof. exact export_subset_clean_partial. Qed.
-Print Assumptions C13_export_subset_clean_partial.
 
 (* Exit status of dclab-verify-dataset (a = number of alerts, not modelled):
    0 exactly for "no violation, no alert"; 2 / 3 as soon as a violation is
@@ -93,12 +68,77 @@ Theorem C13_writer_output_exit :
 Proof. exact writer_output_exit. Qed.
 Print Assumptions C13_writer_output_exit.
 
-(* A file and a copy holding the same content get the same violations. *)
-Theorem C13_same_after_copy :
-  forall f g : file,
-    same_content f g -> f_feats f = f_feats g -> violations f = violations g.
-Proof. exact same_after_copy. Qed.
-Print Assumptions C13_same_after_copy.
+
+(* First sentence, the other write paths.  ds.export.hdf5 (feature selection,
+   filtered), dclab-split, dclab-join and dclab-condense produce
+   [derive_model g keep keep_trace extra m]: a selection of the features of
+   the written file g, all with m events, plus added scalar/index/ml_class
+   features, the metadata of g, completed by the writer.  The result has no
+   violation when every fl?_max feature is kept ([keeps_channels]); without
+   that guard the statement is false (known finding
+   C13-export-subset-channel-count). *)
+Theorem C13_derived_output_clean_partial :
+  forall (f : file) (n : Z) (g : file) (keep : list Z) (kt : bool)
+         (extra : list feat) (m : Z) (h' : file),
+    complete_input f n = true -> rectify f = Some g ->
+    0 < m -> forallb (extra_ok m) extra = true ->
+    keeps_channels keep g = true ->
+    derive_model g keep kt extra m = Some h' -> violations h' = Some [].
+Proof. exact derived_output_clean. Qed.
+Print Assumptions C13_derived_output_clean_partial.
+
+Theorem C13_derived_output_clean_refuted :
+  exists (f : file) (n : Z) (g : file) (keep : list Z) (h' : file),
+    complete_input f n = true /\ rectify f = Some g
+    /\ violations g = Some []
+    /\ keeps_channels keep g = false
+    /\ derive_model g keep false [] n = Some h'
+    /\ violations h' = Some [ChannelCount].
+Proof. exact derived_output_clean_refuted. Qed.
+Print Assumptions C13_derived_output_clean_refuted.
+
+(* "a file and its compressed or repacked copy receive the same violations".
+   dclab-repack is [copy_model] (known features are copied, data behind links
+   are copied in), dclab-compress is [compress_model] = the writer's
+   completion of that copy (both compared with the tools in harness/c13.py).
+   (1) the repacked copy of ANY file loses exactly the external-link and the
+   unknown-feature cues, all other cues are kept in place; *)
+Theorem C13_repack_cues :
+  forall (f : file) (n : Z),
+  exists a b c : list cue,
+    violations_n f n
+    = (a ++ check_external_links f ++ b
+         ++ check_features_unknown_hdf5 f ++ c)%list
+    /\ violations_n (copy_model f) n = (a ++ b ++ c)%list.
+Proof. exact copy_model_cues. Qed.
+Print Assumptions C13_repack_cues.
+
+(* (2) hence equal violations for every file without external data and
+   unknown features, corrupted or not; *)
+Theorem C13_repack_same_violations :
+  forall f : file,
+    f_extlink f = false -> (forall u, In u (f_unknown f) -> u = 0) ->
+    violations (copy_model f) = violations f.
+Proof. exact repack_same_violations. Qed.
+Print Assumptions C13_repack_same_violations.
+
+(* (3) compressing a file written by dclab changes nothing the checker looks
+   at (the completion is idempotent), so both copies of a written file get
+   its violations. *)
+Theorem C13_compress_written_identity :
+  forall (f : file) (n : Z) (g : file),
+    complete_input f n = true -> rectify f = Some g ->
+    compress_model g = Some g.
+Proof. exact compress_written_identity. Qed.
+Print Assumptions C13_compress_written_identity.
+
+Theorem C13_written_copies_same_violations :
+  forall (f : file) (n : Z) (g : file),
+    complete_input f n = true -> rectify f = Some g ->
+    violations (copy_model g) = violations g
+    /\ exists g', compress_model g = Some g' /\ violations g' = violations g.
+Proof. exact written_copies_same_violations. Qed.
+Print Assumptions C13_written_copies_same_violations.
 
 (* ... and the cues do not depend on the storage order of the features. *)
 Theorem C13_violations_order_independent :
@@ -231,6 +271,38 @@ Theorem C13_fl_counts_flagged_refuted :
     /\ violations f = Some [].
 Proof. exact fl_counts_flagged_refuted. Qed.
 Print Assumptions C13_fl_counts_flagged_refuted.
+
+(* hdf5_has_external: external data (an external link whose target may be
+   missing, a virtual dataset, external raw storage) at any depth of the file
+   is found, and nothing else; [mk_file] sets f_extlink with it. *)
+Theorem C13_has_external_spec :
+  forall root : list h5obj,
+    has_external root = true <->
+    exists r o, In r root /\ inside o r /\ leaf_external o = true.
+Proof. exact has_external_spec. Qed.
+Print Assumptions C13_has_external_spec.
+
+Theorem C13_external_data_flagged :
+  forall (f : file) (cs : list cue) (root : list h5obj) (r o : h5obj),
+    violations f = Some cs -> f_extlink f = has_external root ->
+    In r root -> inside o r -> leaf_external o = true -> In ExternalLink cs.
+Proof. exact external_data_flagged. Qed.
+Print Assumptions C13_external_data_flagged.
+
+(* The checker produces a cue list for every file that stores a feature (it
+   does not raise), and a missing event count is then reported. *)
+Theorem C13_checker_total :
+  forall f : file,
+    (f_feats f <> [] \/ f_traces f <> []) -> exists cs, violations f = Some cs.
+Proof. exact checker_total. Qed.
+Print Assumptions C13_checker_total.
+
+Theorem C13_missing_event_count_flagged :
+  forall f : file,
+    f_evcount f = None -> (f_feats f <> [] \/ f_traces f <> []) ->
+    exists cs, violations f = Some cs /\ In (MissingKey k_event_count) cs.
+Proof. exact missing_event_count_flagged. Qed.
+Print Assumptions C13_missing_event_count_flagged.
 
 Theorem C13_external_link_flagged :
   forall (f : file) (cs : list cue), violations f = Some cs ->
